@@ -540,6 +540,13 @@ class Pipelines(Stream):
                 nm, tr = st[0], st[1]
                 manual_c = manual_c + (tr(manual_c, on=st[2]) if len(st) == 3 else tr(manual_c)).add_tag_children(f"step_{nm}")
             out = {"tp": str(tp) == str(manual) and tp == manual, "cp": str(cp) == str(manual_c) and cp == manual_c}
+            # combining a mask with others (&, |, ~, >) builds new masks: the mask itself keeps selecting the same elements
+            ms = [mk_mask(m) for m in case["masks"]]
+            base = ms[0] & ms[-1]
+            before = str(NT()(sc, on=base))
+            for other in ms + [mk_mask(rand_guarded(__import__("random").Random(len(case["masks"])), 1))]:
+                _ = base & other, base | other, ~base, other & base
+            out["mask_reuse"] = str(NT()(sc, on=base)) == before and str(NT()(sc, on=ms[0] & ms[-1])) == before
             # library transform keeps the rhythm
             name = case["lib"]
             tr = {"TransposeDiatonic": lambda: lib.TransposeDiatonic(1), "TransposeChromatic": lambda: lib.TransposeChromatic(2),
@@ -569,6 +576,8 @@ class Pipelines(Stream):
             return {"sig": "transform-pipeline-not-composition", "msg": ""}
         if not r["cp"]:
             return {"sig": "concat-pipeline-not-append", "msg": ""}
+        if not r["mask_reuse"]:
+            return {"sig": "mask-changed-by-combination", "msg": "a mask selects other elements after it was combined with another mask"}
         if not r["rhythm"]:
             return {"sig": f"library-transform-changes-rhythm:{case['lib']}", "msg": r["detail"]}
         return None
